@@ -364,17 +364,18 @@ func (c *Client) matchFundingProposal(ctx context.Context, a, b interface{}) boo
 		return false
 	}
 
-	// Check index map.
-	indices := make([]bool, len(prop0.IndexMap))
+	// Check index map: we stand in for every participant of the virtual
+	// channel in exactly one of the parent channels.
+	indices := make([]int, len(prop0.IndexMap))
 	for i, prop := range props {
 		for j, idx := range prop.IndexMap {
 			if idx == channels[i].Idx() {
-				indices[j] = true
+				indices[j]++
 			}
 		}
 	}
-	for i, ok := range indices {
-		if !ok {
+	for i, n := range indices {
+		if n != 1 {
 			err = errors.Errorf("checking index map %d", i)
 			return false
 		}
